@@ -68,6 +68,8 @@ struct Exp {
     aux: u64,
     cur: Option<Option<u64>>,
     scope: Option<Vec<u64>>,
+    /// a second accepted answer for `scope` (explicit parent this layer was never shown)
+    alt_scope: Option<Vec<u64>>,
 }
 #[derive(Default)]
 struct Cmp {
@@ -289,7 +291,7 @@ impl<'a> Hist<'a> {
                     }
                     if let Some(ws) = &w.scope {
                         self.out.count("lookups_judged", 1);
-                        if e.scope != *ws {
+                        if e.scope != *ws && w.alt_scope.as_ref() != Some(&e.scope) {
                             c.problems.push(format!(
                                 "LOOKUP: inside {:?}({}) rec#{i}'s scope is {:?}, the chain of ancestors its filters accepted is {:?}",
                                 e.k, e.key, e.scope.iter().map(|id| self.serial_of_id(s, *id)).collect::<Vec<_>>(), ws.iter().map(|id| self.serial_of_id(s, *id)).collect::<Vec<_>>()
@@ -611,7 +613,7 @@ impl<'a> Hist<'a> {
             let f = self.leaf_filter(s, i);
             if self.vis(serial, f) {
                 let cur = if with_cur { Some(self.cur_for(t, f).map(|c| self.spans[&c].id)) } else { None };
-                exp.push(Exp { leaf: i, k, key: serial, aux, cur, scope: None });
+                exp.push(Exp { leaf: i, k, key: serial, aux, cur, scope: None, alt_scope: None });
             }
         }
         self.out.count("span_followups_judged", 1);
@@ -706,9 +708,9 @@ impl<'a> Hist<'a> {
                     if chain.len() < full.len() {
                         self.out.count("lookups_with_a_hidden_span_on_the_path", 1);
                     }
-                    exp.push(Exp { leaf: i, k: K::New, key: serial, aux: 0, cur: Some(cur), scope: Some(self.ids(&chain)) });
+                    exp.push(Exp { leaf: i, k: K::New, key: serial, aux: 0, cur: Some(cur), scope: Some(self.ids(&chain)), alt_scope: None });
                 } else {
-                    exp.push(Exp { leaf: i, k: K::New, key: serial, aux: 0, cur: None, scope: None });
+                    exp.push(Exp { leaf: i, k: K::New, key: serial, aux: 0, cur: None, scope: None, alt_scope: None });
                 }
             }
         }
@@ -719,13 +721,45 @@ impl<'a> Hist<'a> {
 
     fn op_event(&mut self, t: usize) -> Result<(), Stop> {
         let s = self.tmap[t];
-        let (cs, fresh) = self.pick_event_cs(Kind::Event);
+        // a quarter of the events name an explicit parent: a live span of this stack (entered
+        // or not, possibly one that some layer's filter rejected), or `None` (a disabled handle)
+        let el = self.eligible(t);
+        let explicit: Option<usize> = if !el.is_empty() && self.rng.chance(1, 4) { Some(*self.rng.pick(&el)) } else { None };
+        let xcs = match explicit {
+            Some(_) => self.pools.fresh.take_xparent_event(1 + self.rng.usize(5), self.rng.usize(4)),
+            None => None,
+        };
+        let (cs, fresh) = match xcs {
+            Some(c) => (c, true),
+            None => self.pick_event_cs(Kind::Event),
+        };
+        let explicit = if xcs.is_some() { explicit } else { None };
+        let xparent: Option<(Option<u64>, Option<tracing::Id>)> = explicit.map(|hi| {
+            let h = self.handles[hi].as_ref().unwrap();
+            (h.serial, h.span.id())
+        });
         let m = Meta { level: cs.level, target: cs.target, span: false, name: 0 };
         let opid = self.next();
         let v = self.verdicts(s, t, m, true);
-        self.trace.push(format!("[t{t}/stack{s}] event!({}) pool#{} op{opid}{} -> reference: receivers {:?}", meta_code(m), cs.idx, if fresh { " (first hit)" } else { "" }, recv(&v.leaf)));
+        self.trace.push(format!(
+            "[t{t}/stack{s}] event!({}{}) pool#{} op{opid}{} -> reference: receivers {:?}",
+            match (&xparent, explicit) {
+                (Some((Some(p), _)), Some(hi)) => format!("parent: h{hi} [s{p}], "),
+                (Some((None, _)), Some(hi)) => format!("parent: h{hi} [disabled handle => None], "),
+                _ => String::new(),
+            },
+            meta_code(m),
+            cs.idx,
+            if fresh { " (first hit)" } else { "" },
+            recv(&v.leaf)
+        ));
+        let xid = xparent.as_ref().map(|x| x.1.clone());
         let maxlvl = match self.workers.run(t, move || {
+            if let Some(id) = &xid {
+                vcs::set_xparent(id.clone());
+            }
             let _ = (cs.emit)(opid);
+            vcs::set_xparent(None);
             vcs::rank_of_filter(&LevelFilter::current())
         }) {
             Ok(x) => x,
@@ -742,7 +776,28 @@ impl<'a> Hist<'a> {
                 if chain.len() < full.len() || self.cur_for(t, f) != self.cur_for(t, None) {
                     self.out.count("lookups_with_a_hidden_span_on_the_path", 1);
                 }
-                exp.push(Exp { leaf: i, k: K::Event, key: opid, aux: 0, cur: Some(chain.first().map(|c| self.spans[c].id)), scope: Some(self.ids(&chain)) });
+                match &xparent {
+                    None => exp.push(Exp { leaf: i, k: K::Event, key: opid, aux: 0, cur: Some(chain.first().map(|c| self.spans[c].id)), scope: Some(self.ids(&chain)), alt_scope: None }),
+                    Some((p, _)) => {
+                        // explicit parent: the event's scope starts at the parent, whatever is
+                        // entered; a parent this layer's filters rejected gives no span at all
+                        // (the chain of the parent's accepted ancestors is accepted too)
+                        self.out.count("events_with_an_explicit_parent_judged", 1);
+                        let cur = chain.first().map(|c| self.spans[c].id);
+                        let (scope, alt) = match p {
+                            None => (vec![], None),
+                            Some(p) if self.vis(*p, f) => (self.ids(&self.chain_from(Some(*p), f)), None),
+                            Some(p) => {
+                                self.out.count("events_whose_explicit_parent_is_hidden_from_the_layer", 1);
+                                (vec![], Some(self.ids(&self.chain_from(Some(*p), f))))
+                            }
+                        };
+                        if p.is_some() && Some(scope.first().copied()) != Some(cur) {
+                            self.out.count("events_whose_explicit_parent_is_not_the_current_span", 1);
+                        }
+                        exp.push(Exp { leaf: i, k: K::Event, key: opid, aux: 0, cur: Some(cur), scope: Some(scope), alt_scope: alt });
+                    }
+                }
             }
         }
         let cmp = self.compare(s, &exp, &lev);
